@@ -327,6 +327,10 @@ func main() {
 	// 2. known findings: replay each witness
 	for _, k := range kf.For(*prop) {
 		wf := filepath.Join(verif, k.Witness)
+		if _, err := os.Stat(wf); err != nil {
+			fmt.Printf("note: witness %s of known finding %q is missing\n", k.Witness, k.ID)
+			continue
+		}
 		r, out, err := b.replayFresh(wf, 5*time.Minute)
 		if err != nil {
 			cleanup()
